@@ -3422,7 +3422,8 @@ impl CommandParser {
     }
     
     fn parse_bitcount(frames: &[RespFrame]) -> Result<BitCommand> {
-        if frames.len() < 2 || frames.len() > 4 {
+        // BITCOUNT key, or BITCOUNT key start end: a start without an end is a syntax error
+        if frames.len() != 2 && frames.len() != 4 {
             return Err(FerrousError::Command(CommandError::WrongNumberOfArguments("BITCOUNT".into())));
         }
         let key = Self::extract_bytes(&frames[1])?;
